@@ -281,26 +281,46 @@ Lemma flat_map_filter {A} : forall (p : A -> bool) (g : A -> list A),
   (forall x, g x = if p x then [x] else []) -> forall l, flat_map g l = filter p l.
 Proof. intros p g H. induction l as [|x l IH]; simpl; auto. rewrite H, IH. destruct (p x); reflexivity. Qed.
 
+(* a loop that appends every element *)
+Lemma flat_map_single {A} : forall (g : A -> list A), (forall x, g x = [x]) -> forall l, flat_map g l = l.
+Proof. intros g H. induction l as [|x l IH]; simpl; auto. now rewrite H, IH. Qed.
+
 (* ---------------------------------------------------------------- tactics for the agreement proofs *)
 (* case analysis on every decidable test that occurs in the goal *)
 Ltac go_cases :=
-  repeat match goal with
-         | |- context [String.eqb ?a ?b] => destruct (String.eqb_spec a b); try subst
-         | |- context [Z.eqb ?a ?b] => destruct (Z.eqb_spec a b)
-         | |- context [Z.ltb ?a ?b] => destruct (Z.ltb_spec a b)
-         | |- context [Z.leb ?a ?b] => destruct (Z.leb_spec a b)
-         | |- context [strings_HasPrefix ?a ?b] => destruct (strings_HasPrefix a b) eqn:?
-         | |- context [String.prefix ?a ?b] => destruct (String.prefix a b) eqn:?
-         | |- context [if ?c then _ else _] => destruct c eqn:?
-         end; cbn [negb andb orb].
+  repeat (cbn [negb andb orb];
+          match goal with
+          | |- context [String.eqb ?a ?b] => destruct (String.eqb_spec a b); try subst
+          | |- context [Z.eqb ?a ?b] => destruct (Z.eqb_spec a b)
+          | |- context [Z.ltb ?a ?b] => destruct (Z.ltb_spec a b)
+          | |- context [Z.leb ?a ?b] => destruct (Z.leb_spec a b)
+          | |- context [strings_HasPrefix ?a ?b] => destruct (strings_HasPrefix a b) eqn:?
+          | |- context [String.prefix ?a ?b] => destruct (String.prefix a b) eqn:?
+          | |- context [if ?c then _ else _] => destruct c eqn:?
+          end); cbn [negb andb orb].
 
-Ltac go_norm := cbv zeta beta; rewrite ?app_nil_l, ?app_nil_r, <- ?app_assoc, ?sapp_assoc, ?sapp_nil_r.
+Ltac go_norm := cbv zeta beta; cbn [app]; rewrite ?app_nil_l, ?app_nil_r, <- ?app_assoc, ?sapp_assoc, ?sapp_nil_r.
 
 (* the side condition of fold_left_append_only for a translated loop body *)
 Ltac go_append_only := intros; cbv beta zeta; go_cases; rewrite ?app_nil_l, ?app_nil_r, <- ?app_assoc; try reflexivity; try congruence.
 
-(* turn every append-only range loop of the goal into a flat_map *)
+(* turn every append-only range loop of the goal into a flat_map (and a copying loop into the list itself) *)
 Ltac go_loops :=
   repeat match goal with
          | |- context [fold_left ?f ?l ?a] => rewrite (fold_left_append_only f) by go_append_only
+         end;
+  repeat match goal with
+         | |- context [flat_map ?g ?l] => rewrite (flat_map_single g) by (intros; cbv beta zeta; cbn [app]; reflexivity)
          end.
+
+(* a translated receiver Record: open it, keep the loops and joins folded *)
+Ltac go_record f := destruct f; cbn -[String.append String.concat strings_Join fold_left flat_map filter] in *.
+
+(* every string of the context is empty or not (each destructed ONCE: the tails stay abstract) *)
+Ltac go_strings :=
+  repeat match goal with s : string |- _ => revert s end;
+  repeat (let c := fresh "c" in let r := fresh "r" in intros [|c r]).
+
+(* the usual end of an agreement proof about functions of a few strings: loops to flat_maps, case
+   analysis on emptiness, computation, associativity of the appends *)
+Ltac go_auto := try go_loops; go_norm; go_strings; cbn; go_norm; try reflexivity.
